@@ -314,6 +314,7 @@ func funcKey(f *ssa.Function) string {
 
 // methodKey for an interface method (abstract call).
 func ifaceMethodKey(recv types.Type, name string) string {
+	recv = types.Unalias(recv)
 	pkg := ""
 	tn := types.TypeString(recv, func(*types.Package) string { return "" })
 	if n, ok := recv.(*types.Named); ok {
